@@ -30,6 +30,7 @@ LEVEL_TEXT = ('Bounded-exhaustive: every tree shape up to the node bound, every 
               'pruning invariance is additionally checked with the library alone.')
 LEVEL_NOTE = 'trusted: mc/ref/cell.py (recursive effective-level formulation, pinned by the main-net block root hash which exercises masks 0/1 and a Merkle update)'
 TECHNIQUE = 'small-scope exhaustive enumeration of exotic-cell trees and prune sets against a reference model'
+RULE += " Merkle updates: all 64 (old-side mask, new-side mask) pairs of raw pruned cells below 0..3 Merkle proofs (the update's mask is (old | new) >> 1)."
 ASSUMPTIONS = ['hash/depth payloads of raw pruned cells are seed-derived filler', 'trees beyond the node bound and nesting beyond 3 layers are not explored']
 NOT_ASSERTED = ['rejection of malformed exotic cells (the property only demands that spec-valid cells can be built and report spec values)']
 
